@@ -106,7 +106,9 @@ impl<'tcx> M<'tcx> {
         let n = strip_generics(name);
         let n = n.replace("core::", "std::");
         let n = n.as_str();
-        let _ = d;
+        if let Some(v) = self.model_observers(d, cargs, n, vals, ret_ty)? {
+            return Ok(Some(v));
+        }
         let ptr_arg = |vals: &Vec<(V<'tcx>, Ty<'tcx>)>, i: usize| -> R<Ptr> {
             match &vals[i].0 {
                 V::Ptr(p) => Ok(p.clone()),
